@@ -140,6 +140,7 @@ func ruleCodabarAssembly(c *Ctx) {
 	n.BindParams(fn, "content", "color")
 	addBit := c.P.Func("utils.(*BitList).AddBit")
 	var gap, pat *ssa.Call
+	carried := false
 	other := 0
 	F := fn
 	for _, site := range c.P.deepCallsTo(fn, addBit) {
@@ -154,6 +155,24 @@ func ruleCodabarAssembly(c *Ctx) {
 				other++
 			}
 			continue
+		}
+		// a gap carried in a variable: nothing in front of the first character (nil on entry to the
+		// loop), one narrow space from then on (set in every iteration)
+		if phi, ok := call.Common().Args[1].(*ssa.Phi); ok && gap == nil && isLoopHeader(phi.Block()) {
+			okPhi := len(phi.Edges) >= 2
+			for ei, e := range phi.Edges {
+				if phi.Block().Dominates(phi.Block().Preds[ei]) {
+					if bits, isList := constBoolList(c.P, e); !isList || bits != "0" {
+						okPhi = false
+					}
+				} else if !isNilConst(e) {
+					okPhi = false
+				}
+			}
+			if okPhi {
+				gap, carried = call, true
+				continue
+			}
 		}
 		if pat == nil {
 			pat = call
@@ -205,7 +224,13 @@ func ruleCodabarAssembly(c *Ctx) {
 	body := hdr.Succs[0]
 	c.expectCond(R, "codabar.EncodeWithColor/pattern-always", pat.Pos(), n.ReachCond(F, body, pat.Block()), "true")
 	dom := MustRefCond("i >= 0")
-	c.expectCondC(R, "codabar.EncodeWithColor/gap-iff", gap.Pos(), cAnd(dom, n.ReachCond(F, body, gap.Block())), cAnd(dom, MustRefCond("i != 0")))
+	if carried {
+		okHdr := gap.Common().Args[1].(*ssa.Phi).Block() == hdr
+		eq, _ := CondEquivalent(n.ReachCond(F, body, gap.Block()), cTrue)
+		c.Check(R, "codabar.EncodeWithColor/gap-iff", gap.Pos(), okHdr && eq, "the carried gap (empty for the first character, one space afterwards) is appended for every character", fmt.Sprintf("state of the character loop: %v; appended when %s", okHdr, n.ReachCond(F, body, gap.Block())))
+	} else {
+		c.expectCondC(R, "codabar.EncodeWithColor/gap-iff", gap.Pos(), cAnd(dom, n.ReachCond(F, body, gap.Block())), cAnd(dom, MustRefCond("i != 0")))
+	}
 	c.Check(R, "codabar.EncodeWithColor/gap-before-pattern", gap.Pos(), !dominatesInstr(pat, gap) && reachableFrom(gap.Block())[pat.Block()], "the gap precedes the character's pattern", "ok")
 }
 
